@@ -7,6 +7,7 @@ import Proofs.DepGraphGraft
 import Proofs.GraftOrder
 import Proofs.DepGraphClosure
 import Proofs.DepGraphEqv
+import Proofs.DepGraphDepsRec
 import Proofs.DepGraphTopoComplete
 /-!
 # C16 — the dependency graph mirrors a plain node/edge set under any edit history
@@ -24,8 +25,8 @@ graphs, every node once after all its dependencies, `cyclic` otherwise).
 `graft` refines its set-level counterpart (`graft_refines_spec`) and preserves the ordering constraints between
 the plain nodes (`graft_preserves_order`); transitive closure and reduction are proved on acyclic graphs (`closure_spec`, `reduction_spec`: same reachability,
 most / fewest edges).  `grafts_preserve_order` extends this to any sequence of grafts and `flatten_round_eq` shows that one round of the model's
-`flatten` is such a sequence.  Not proved: the recursion of `flatten(recurse=True)` over nested levels, recursive
-`dependencies` (`<=` is `le_reads`, `==` is `eq_reads`) — in the executable model and tied to the code by the correspondence
+`flatten` is such a sequence.  Recursive `dependencies` is `dependencies_rec_reads` (partial correctness), `<=` is `le_reads`, `==` is `eq_reads`.
+Not proved: the recursion of `flatten(recurse=True)` over nested levels — in the executable model and tied to the code by the correspondence
 (`multi_history_refines` is therefore the `…_partial` form of the property's first sentence: histories whose grafts are
 taken one at a time through `graft_refines_spec`).  `c16_pinned_refuted` keeps the pinned `graft` (A19) refuted.
 -/
@@ -348,6 +349,14 @@ theorem eq_reads {g h : G} {s t : Spec} (hg : Refines g s) (hh : Refines h t) :
   · rintro ⟨h1, h2⟩
     exact ⟨fun z => ((hg.2.1 z).trans (h1 z)).trans (hh.2.1 z).symm,
       fun u w => ((hg.2.2 u w).trans (h2 u w)).trans (hh.2.2 u w).symm⟩
+
+/-- `dependencies(x, recurse=True)`: when it returns, exactly the nodes that `x` depends on directly or indirectly
+(partial correctness: the Python loop has no budget; see `Model/DepGraph.lean`, `depsLoop`) -/
+theorem dependencies_rec_reads {g : G} {s : Spec} (h : Refines g s) {x : Nat} (hx : s.N x) {l : List Nat}
+    (hl : g.dependenciesRec x = .ok l) : ∀ y, y ∈ l ↔ Relation.TransGen s.E x y := by
+  have eE : g.Edge = s.E := by funext u w; exact propext (h.2.2 u w)
+  intro y
+  rw [dependenciesRec_spec h.1 ((h.2.1 x).2 hx) hl y, eE]
 
 /-- the mathematical graph after grafting the graph `t` in place of the node `x` of `s` -/
 def Spec.graft (s t : Spec) (x : Nat) : Spec :=
